@@ -4,7 +4,7 @@ from copy import copy
 
 RULE = ("random curves (polynomial/rational, degree 0..3, repeated knots): split at random nodes (new values, existing knots, ends, repeats), "
         "split() into Bezier pieces, re-join of the pieces; independently built adjacent pairs (continuous or not, different degrees, "
-        "rational or not); different meeting points.  Non-trivial: degree >= 1 and at least one cut; distinct = distinct (curve, nodes)."
+        "rational or not, reciprocal-like pairs c/D_A, c/D_B with a smooth numerator); different meeting points.  Non-trivial: degree >= 1 and at least one cut; distinct = distinct (curve, nodes)."
         " Also: operands refined by knot insertion (only the junction knot may lose multiplicity), repeated split after modifying the pieces; integer / dyadic knot vectors with an int- or float-knot twin split first.")
 EXPLANATION = ("L2: pieces and joined curve vs the model; L3: `rf.eqsub` (each piece equals the original on its sub-interval, for every u), "
                "piece count / clamping, `rf.eq` of the re-joined curve, expected junction multiplicities from the exact jump orders (`rf.needed`).")
@@ -194,7 +194,7 @@ def run(ctx):
         mid = F(rng.randint(-2, 2))
         UA = rand_kv(rng, p=pa, nintmax=2, interval=(mid - rng.randint(1, 2), mid))
         UB = rand_kv(rng, p=pb, nintmax=2, interval=(mid, mid + rng.randint(1, 3)))
-        label = rng.choice(["continuous", "continuous", "jump", "rational", "mismatch", "refined", "refined"])
+        label = rng.choice(["continuous", "continuous", "jump", "rational", "mismatch", "refined", "refined", "shared-numerator"])
         na, nb = kv_info(UA)[1], kv_info(UB)[1]
         PA, PB = rand_points(rng, na, dim), rand_points(rng, nb, dim)
         WA = WB = None
@@ -221,6 +221,15 @@ def run(ctx):
         if label == "rational":
             WA = rand_weights(rng, na, rng.choice(["pos", "none"]))
             WB = rand_weights(rng, nb, "pos")
+        if label == "shared-numerator":
+            # A = c / D_A, B = c / D_B: the homogeneous numerator w_i P_i is the same constant on both sides (perfectly smooth across the
+            # junction) while the weight functions only meet continuously: the junction knot is needed by the denominator alone
+            cst = F(rng.randint(1, 9), rng.randint(1, 3))
+            WA = [F(rng.randint(1, 9), rng.randint(1, 3)) for _ in range(na)]
+            WB = [F(rng.randint(1, 9), rng.randint(1, 3)) for _ in range(nb)]
+            WB[0] = WA[-1]
+            PA = [(cst / w,) for w in WA]
+            PB = [(cst / w,) for w in WB]
         if label == "mismatch":
             UB = [x + F(1, 3) for x in UB]
         run_case(ctx, ser(dict(kind="pair", label=label, A=dict(U=UA, P=PA, W=WA), B=dict(U=UB, P=PB, W=WB))))
